@@ -207,6 +207,7 @@ def zernike_nm_der(n, m, r, t, norm=True):
     # multiplied by d/dt ( cost )
     # the derivatives are floating point, also on an integer grid
     r = np.asarray(r, dtype=np.result_type(r, 1.0))
+    t = np.asarray(t, dtype=np.result_type(t, 1.0))
     x = 2 * r ** 2 - 1
     am = abs(m)
     n_j = (n - am) // 2
